@@ -718,3 +718,36 @@ def register(reg):
       "(known_findings.json): same row named twice in a bulk update; one action writing both columns of a same-table "
       "pair; row added under an id a dangling two-way reference points to.",
       "Lean 4 theorems (set algebra over association lists, strict-sortedness for the uniqueness check) + differential correspondence + direct oracle on a live engine")
+
+  reg("C12", "proof",
+      "The maintenance of a summary table by formula side effects is modelled (GristModel/SummaryModel.lean): the private helper "
+      "column #summary#<table> (_updateSummary: lookupOrAddDerived for simple tables; set() + sorted(itertools.product()) + one "
+      "BulkAddRecord for tables grouped by ChoiceList/RefList columns, the early `return []` for non-list cells, the "
+      "is_triggered_by_table_action guard), row-id allocation, `group` = ascending lookup of the helper column "
+      "(getSummarySourceGroup) with setAutoRemove, and apply_auto_removes. Proved for ALL source tables, group-by column sets "
+      "(scalar / ChoiceList / RefList in any combination) and ALL batches of source edits: summary_maintain (from an exact "
+      "summary table and a consistent helper column, re-evaluating the helper for any superset of the added/changed/removed "
+      "rows, `group` for the summary rows whose lookup changed, and removing marked rows gives an exact summary table of the new "
+      "source and again a consistent helper column), summary_build (creation from scratch), no_duplicate_keys / "
+      "helper_cell_exact (one helper evaluation never adds an existing key and refers to exactly the rows with one of the "
+      "source row's keys), keysOf_distinct / mem_keysOf / mem_cellKeys / codeKeys_exact (keys of a row = cartesian product of "
+      "the distinct elements, '' / 0 for an empty list, none for a non-list value; the code's sorted product enumerates exactly "
+      "them, once), group_sorted / group_unique / maintain_no_empty_group, checkExact_iff (the executable predicate the driver "
+      "evaluates on real documents is SummaryExact), guard_blocks_adds (negation: under the guard a key is left without a row). "
+      "Differentially validated only: that the model equals the engine -- on every record-edit bundle of the histories the model "
+      "must reproduce the real summary table (row ids, keys, groups), the real helper column and the rows added/removed by the "
+      "stored actions -- and the property itself on the real engine: a Python twin of SummaryExact (and the Lean checkExact via "
+      "the driver) on every summary table after every successful bundle, including regrouping (UpdateSummaryViewSection), "
+      "detaching, renames, type changes and removals of group-by columns, undo. NAMED GAP: summary.py "
+      "(create_new_summary_section / update_summary_section / _get_or_create_summary) and the propagation of renames/type "
+      "changes to group-by columns are not modelled; they are checked by the evaluated predicate only.",
+      "Key equality = equality of the engine's lookup key of the summary column (rich value after conversion, references by row "
+      "id, alt text by text; taken from the live column objects; NaN excluded); a source cell holding an error contributes no "
+      "key. Model tie restricted to record-edit bundles with unchanged summary structure, data (non-formula) group-by columns, no error/list-in-scalar cells, no "
+      "pending recomputation left by a rejected bundle, no key rewritten in place by reference clean-up. Model values are "
+      "interned by the harness; dirtied rows are evaluated in ascending row id order; is_triggered_by_table_action was never "
+      "observed True while a helper formula ran (counted every run). Six recorded findings (known_findings.json): stale groups "
+      "when a group-by cell becomes an error; list values in a non-list group-by column; negative references; a group-by formula "
+      "column recalculated after its helper cell (stale key); renaming / grouping by a source column called `group`. quick: 20 histories x 26 bundles; "
+      "thorough: 1000 histories.",
+      "Lean 4 theorems (invariant of the helper column + fold over dirtied rows) + differential correspondence on a live engine + direct oracle on histories")
